@@ -500,7 +500,7 @@ def rlimit_crosscheck(case: dict, ref_new: bytes | None, rng, samples: int, inc)
     """A file-size limit enforced by the kernel (RLIMIT_FSIZE, the same EFBIG / short-write behaviour as a full disk)
     while a forked child saves; the parent inspects what the child left behind."""
     options = case["options"]
-    if (options.get("max_workers") or 1) > 1 or options.get("max_shard_size_bytes") is not None or ref_new is None or len(ref_new) < 2:
+    if options.get("max_shard_size_bytes") is not None or ref_new is None or len(ref_new) < 2:
         return None
     for _ in range(samples):
         limit = max(1, len(ref_new) - rng.choice([1, 1, 2, 7, max(1, len(ref_new) // 3), max(1, len(ref_new) // 2)]))
